@@ -323,8 +323,11 @@ Inductive idx_source :=
 | SrcSupplied (codec : N) (withid : bool). (* caller-supplied, generated likewise *)
 
 (* the CARv1 payload with optional null padding after the last section *)
-Definition payload_np (roots : list bytes) (bs : list block) (npad : N) : bytes :=
-  enc_payload roots bs ++ zerosN npad.
+(* ro = None: the writer was given a nil root slice (header carries CBOR null) *)
+Definition hdr_roots (ro : option (list bytes)) : list bytes :=
+  match ro with Some r => r | None => [] end.
+Definition payload_np (ro : option (list bytes)) (bs : list block) (npad : N) : bytes :=
+  (ld (enc_header ro 1) ++ enc_sections bs) ++ zerosN npad.
 
 (* (cid, payload-relative offset of the section's length varint), identity skipped unless withid *)
 Fixpoint sect_records (withid : bool) (pos : N) (bs : list block) : list irec :=
@@ -338,8 +341,8 @@ Fixpoint sect_records (withid : bool) (pos : N) (bs : list block) : list irec :=
     | None => rest
     end
   end.
-Definition payload_records (withid : bool) (roots : list bytes) (bs : list block) : list irec :=
-  sect_records withid (ld_size (blen (enc_header (Some roots) 1))) bs.
+Definition payload_records (withid : bool) (ro : option (list bytes)) (bs : list block) : list irec :=
+  sect_records withid (ld_size (blen (enc_header ro 1))) bs.
 
 Definition flat_of (codec : N) (recs : list irec) : option index :=
   match idx_new codec with Some i0 => Some (idx_load recs i0) | None => None end.
@@ -370,13 +373,13 @@ Inductive container :=
 | CV2 (chi clo dpad ipad : N) (emb : option (N * bool)). (* characteristics, paddings, embedded
                                                             index: (codec, has identity entries) *)
 
-Definition car_file (ct : container) (roots : list bytes) (bs : list block) (npad : N) : option bytes :=
-  let p := payload_np roots bs npad in
+Definition car_file (ct : container) (ro : option (list bytes)) (bs : list block) (npad : N) : option bytes :=
+  let p := payload_np ro bs npad in
   match ct with
   | CV1 => Some p
   | CV2 chi clo dpad ipad None => Some (v2_file chi clo dpad ipad p None)
   | CV2 chi clo dpad ipad (Some (codec, wid)) =>
-      match flat_of codec (payload_records wid roots bs) with
+      match flat_of codec (payload_records wid ro bs) with
       | Some i => Some (v2_file chi clo dpad ipad p (Some (idx_write i)))
       | None => None
       end
